@@ -52,7 +52,8 @@ CLAIMS = {
  "C04": dict(
    text="The print law (no 60 in minutes/seconds, sign once on the leading non-zero field, read-back within half a unit of "
         "the last decimal modulo 360/24, canonical tuple recombining to 1e-9 degree) is a TLA+ predicate over the printed "
-        "fields; TLC model-checks an integer carry model of dms_str against it on all carry windows and then judges, in exact "
+        "fields; TLC model-checks an integer carry model of dms_str against it on all carry windows (Apalache: for every value "
+        "below one turn, symbolically) and then judges, in exact "
         "fixed point, every string and tuple the real Angle produces for the same grid and for seeded boundary-focused "
         "values (1e-12 / 1-3 ulp / half-unit neighbours of whole seconds, minutes, degrees, hours, 0, +-360, denormals) and "
         "sub-degree values 1.5e-11 arcsec either side of rounding ties, judged to 7e-12 arcsec (single rounding).",
